@@ -11,10 +11,16 @@ Bind:  TLC-simulated histories are executed on real minerals; every call is reco
 """
 import json
 
+import numpy as np
+
 from harness import layerb
 from harness.common import SEED, Check, MachineryError, quiet_pydrex, run_tlc
 
 DTS = [0.2, 0.1, 0.05, 0.4, 0.02]  # partition classes: strain increment per call
+# deformation gradient the history starts from: identity, or the gradient accumulated by a long earlier
+# history (pure shear to a natural strain of 16 in a rotated frame: entries of order 1e7)
+_Q = np.array([[2, -1, 2], [2, 2, -1], [-1, 2, 2]]) / 3.0
+F0S = [None, None, _Q @ np.diag([np.exp(16.0), np.exp(-16.0), 1.0]) @ _Q.T]
 
 
 def main(tier):
@@ -35,7 +41,7 @@ def main(tier):
     chk.add_tlc("PyDRexC01_seed", sres, "every ordered pair of default constructions over seeds {0, 1, 2, 12345} x grain counts x phases: equal (seed, n) must give bit-identical initial textures")
     nshort = len(behs)
     behs = behs + longs + seeds
-    events, comp = layerb.run_behaviours(chk, "C01", behs, fcheck=False, dt_of=lambda tid: DTS[tid % len(DTS)] if tid < nshort else 0.4)
+    events, comp = layerb.run_behaviours(chk, "C01", behs, fcheck=False, dt_of=lambda tid: DTS[tid % len(DTS)] if tid < nshort else 0.4, F0_of=lambda tid: F0S[tid % len(F0S)])
     # coverage of the discrete classes actually exercised
     seen = dict(triples=set(), flows=set(), textures=set(), ns=set(), pars=set())
     for b in behs:
